@@ -1808,6 +1808,13 @@ def _stateprep_workflow(
         SetTargetPass(state),
         GreedyPlacementPass(),
         synthesis,
+        build_single_qudit_retarget_workflow(
+            optimization_level,
+            synthesis_epsilon,
+            max_synthesis_size,
+            error_threshold,
+            error_sim_size,
+        ),
         scan if optimization_level >= 2 else NOOPPass(),
         ApplyPlacement(),
     ]
@@ -1908,6 +1915,13 @@ def _statemap_workflow(
         SetTargetPass(state),
         GreedyPlacementPass(),
         synthesis,
+        build_single_qudit_retarget_workflow(
+            optimization_level,
+            synthesis_epsilon,
+            max_synthesis_size,
+            error_threshold,
+            error_sim_size,
+        ),
         scan if optimization_level >= 2 else NOOPPass(),
         ApplyPlacement(),
     ]
